@@ -10,7 +10,7 @@ use std::path::Path;
 use std::time::SystemTime;
 use std::{borrow::Cow, io::Write};
 
-use chrono::{format::StrftimeItems, DateTime, Local};
+use chrono::{format::StrftimeItems, Local};
 
 use super::{FileType, Matcher, MatcherIO, WalkEntry, WalkError};
 
@@ -45,16 +45,18 @@ impl TimeFormat {
             Self::Ctime => {
                 const CTIME_FORMAT: &str = "%a %b %d %H:%M:%S.%f0 %Y";
 
-                DateTime::<Local>::from(time)
-                    .format(CTIME_FORMAT)
-                    .to_string()
+                match super::time::utc_datetime(time) {
+                    Some(t) => t.with_timezone(&Local).format(CTIME_FORMAT).to_string(),
+                    None => super::time::epoch_seconds(time),
+                }
             }
             Self::Strftime(format) => {
                 // Handle a special case
                 let custom_format = format.replace("%+", "%Y-%m-%d+%H:%M:%S%.f0");
-                DateTime::<Local>::from(time)
-                    .format(&custom_format)
-                    .to_string()
+                match super::time::utc_datetime(time) {
+                    Some(t) => t.with_timezone(&Local).format(&custom_format).to_string(),
+                    None => super::time::epoch_seconds(time),
+                }
             }
         };
 
